@@ -138,9 +138,9 @@ def closure_unvisited(req, deps, visited):
     return out
 
 
-def judge(ids, edges, log, nsteps):
+def judge(ids, edges, log, nsteps, abandoned=()):
     """Pure-Python oracle over a concrete callback log.  Returns None or a
-    description."""
+    description.  abandoned: steps whose events the caller stopped reading (only the prefix clauses apply to them)."""
     n = len(ids)
     deps = {ids[i]: [ids[j] for j in range(n) if (i, j) in edges] for i in range(n)}
     for step in range(nsteps):
@@ -174,6 +174,8 @@ def judge(ids, edges, log, nsteps):
             elif kind == "request":
                 req = e[2]
                 must_next = closure_unvisited(req, deps, set(visited))
+        if step in abandoned:
+            continue
         if pending_cond is not None and pending_cond[2]:
             return "step %d: %s had a true guard but was not executed" % (step, pending_cond[1])
         if sorted(visited) != sorted(ids):
@@ -212,10 +214,30 @@ def harness(n, edges, mode, nsteps):
                 ex.assume(z3.Bool("guard_%s_step0" % i))
         it.set_up(t_start=0, dt_start=1, context={})
         err = None
+        abandoned = set()
+        kept_alive = []
+        nread = {"k": None}
         try:
             for step in range(nsteps):
                 it.step = step
-                for _ in it.run_single_step():
+                gen = it.run_single_step()
+                if mode.startswith("kinds") and step == 0 and bool(SymBool(z3.Bool("caller_abandons_step0"))):
+                    # the caller reads k events of step 0 and then stops reading, keeping the generator object alive
+                    # (a consumer that leaves its loop early); the NEXT step must still visit every statement once
+                    k = ex.choice(3, "events_read")
+                    nread["k"] = k
+                    done = False
+                    for _ in range(k):
+                        try:
+                            next(gen)
+                        except StopIteration:
+                            done = True
+                            break
+                    if not done:
+                        kept_alive.append(gen)
+                        abandoned.add(step)
+                        continue
+                for _ in gen:
                     pass
         except (symx.Abort, symx.Unmodelled, symx.BudgetExceeded):
             raise
@@ -226,7 +248,7 @@ def harness(n, edges, mode, nsteps):
         except Exception as e:  # noqa
             err = "%s: %s" % (type(e).__name__, str(e)[:100])
         ex.stats.obligations += 1
-        bad = err or judge(ids, edges, log, nsteps)
+        bad = err or judge(ids, edges, log, nsteps, abandoned)
         if bad is None:
             ex.stats.discharged += 1
             return None
@@ -237,7 +259,9 @@ def harness(n, edges, mode, nsteps):
                 "guards": {"%s@%d" % (e[1], e[3]): e[2] for e in log if e[0] == "cond"},
                 "visit_order": [(e[1], e[3]) for e in log if e[0] == "cond"],
                 "requests": [(e[1], list(e[2]), e[3]) for e in log if e[0] == "request"],
-                "dep_orders": _orders(ids, edges, ex), "flags": _flags(n, ex)}
+                "dep_orders": _orders(ids, edges, ex), "flags": _flags(n, ex),
+                "abandon_step0_after_events": (len([1 for e in log if e[3] == 0 and e[0] == "exec"]) if abandoned else None),
+                "events_read": (nread["k"] if abandoned else None)}
     return h
 
 
@@ -321,17 +345,33 @@ def replay_inner(d):
                 it.context["<p>g%d" % i] = bool((d.get("flags") or [True] * n)[i])
             it.set_up(t_start=0, dt_start=1, context={})
             err = None
+            abandoned = set()
+            kept_alive = []
             try:
                 for step in range(d["nsteps"]):
                     it.step = step
-                    for _ in it.run_single_step():
+                    gen = it.run_single_step()
+                    if step == 0 and d.get("events_read") is not None:
+                        done = False
+                        for _ in range(d["events_read"]):
+                            try:
+                                next(gen)
+                            except StopIteration:
+                                done = True
+                                break
+                        if not done:
+                            kept_alive.append(gen)
+                            abandoned.add(step)
+                            continue
+                    for _ in gen:
                         pass
             except Exception as e:  # noqa
                 err = "%s: %s" % (type(e).__name__, e)
-            bad = err or judge(ids, edges, log, d["nsteps"])
+            bad = err or judge(ids, edges, log, d["nsteps"], abandoned)
             return {"reproduced": bad is not None,
-                    "detail": "%s; hand-written phase (kinds rotation %s) n=%d edges=%s flags=%s set order=%s"
-                    % (bad, d["mode"][5:], n, sorted(edges), d.get("flags"), order)}
+                    "detail": "%s; hand-written phase (kinds rotation %s) n=%d edges=%s flags=%s set order=%s%s"
+                    % (bad, d["mode"][5:], n, sorted(edges), d.get("flags"), order,
+                       "" if d.get("events_read") is None else "; the caller read %d event(s) of step 0, stopped reading and kept the generator" % d["events_read"])}
         finally:
             ranked.MODE["mode"] = "symbolic"
 
